@@ -642,6 +642,8 @@ def main(tier):
     c18.check_useable_schedule(rep, llir.library('default'), Ku)
     check_construn(rep, llir.library('default'))
     check_df_lane_limits(rep)
+    import stridecover
+    stridecover.check(rep, 'DEFLATE', {'igzip_deflate', 'igzip_histogram', 'igzip_set_long', 'igzip_encode_df', 'igzip_hash'}, 100, lookahead=True)
     for c in CONFIGS:
         lay = hufftables_layout(c)
         unpack = unpack_consts(c)
